@@ -70,6 +70,32 @@ pub fn read_whole(bytes: &[u8]) -> Result<Obs, String> {
     }
 }
 
+/// A reader that hands out the stream in the pieces given by `cuts` (short reads are the environment's choice).
+pub struct CutReader<'a> {
+    pub bytes: &'a [u8],
+    pub pos: usize,
+    pub cuts: Vec<usize>,
+}
+
+impl std::io::Read for CutReader<'_> {
+    fn read(&mut self, buf: &mut [u8]) -> std::io::Result<usize> {
+        let next = self.cuts.iter().copied().find(|&c| c > self.pos).unwrap_or(self.bytes.len()).min(self.bytes.len());
+        let n = (next - self.pos).min(buf.len());
+        buf[..n].copy_from_slice(&self.bytes[self.pos..self.pos + n]);
+        self.pos += n;
+        Ok(n)
+    }
+}
+
+/// `JxlImageBuilder::read` (the library's own buffering loop) on a reader that returns short reads at `cuts`.
+pub fn read_with_cuts(bytes: &[u8], cuts: &[usize]) -> Result<Obs, String> {
+    match guard(|| JxlImage::builder().pool(JxlThreadPool::none()).read(CutReader { bytes, pos: 0, cuts: cuts.to_vec() }).map(|i| observe(&i))) {
+        Ok(Ok(o)) => Ok(o),
+        Ok(Err(e)) => Err(format!("read: {e}")),
+        Err(p) => Err(format!("panic@{p}")),
+    }
+}
+
 #[derive(Clone, Debug, PartialEq, Eq)]
 pub enum LoadingRender {
     NotAttempted,
